@@ -1155,6 +1155,8 @@ class DAG(nx.DiGraph):
             bn = self
         else:
             bn = BayesianNetwork(self.edges())
+            # Keep the nodes that have no edges.
+            bn.add_nodes_from(self.nodes())
 
         if estimator is None:
             estimator = MaximumLikelihoodEstimator
